@@ -8,6 +8,7 @@ is always recompiled and an unchanged one is reused.  All output lives under /ve
 import fcntl
 import hashlib
 import os
+import time
 import re
 import subprocess
 import sys
@@ -205,6 +206,9 @@ def build_harness(src_rel, flavor="asan", extra_flags=(), extra_link=(), extra_s
         if rapidcheck:
             cmd += ["-lrapidcheck"]
         cmd += ["-lz", "-lpthread", "-o", tmp]
+        if any(not os.path.exists(o) for o in objs):
+            # a concurrent run's cache clean-up took an object away between build_lib() and here: build it again (same names)
+            build_lib(flavor, lib_defs)
         _run(cmd, src_rel)
         os.rename(tmp, exe)
         _gc(bindir, {exe}, 160, 120)
@@ -219,7 +223,16 @@ def _gc(d, keep, high, low):
         return
     if len(files) <= high:
         return
-    files = sorted((f for f in files if f not in keep), key=lambda f: os.path.getmtime(f))
+    # never drop what was built or used within the last hour: a concurrent run (another property, another checkout) may be
+    # about to link against it - the bound on disk use is soft
+    now = time.time()
+
+    def age_ok(f):
+        try:
+            return now - os.path.getmtime(f) > 3600
+        except OSError:
+            return False
+    files = sorted((f for f in files if f not in keep and age_ok(f)), key=lambda f: os.path.getmtime(f))
     for f in files[:max(0, len(files) + len(keep) - low)]:
         try:
             os.unlink(f)
